@@ -47,6 +47,16 @@ fn qbool(v: bool) -> Q {
 }
 
 impl E {
+    /// true when the expression contains at least one variable
+    pub fn mentions_variable(&self) -> bool {
+        let mut f = false;
+        self.visit(&mut |x| {
+            if matches!(x, E::Var(_)) {
+                f = true;
+            }
+        });
+        f
+    }
     pub fn add(a: E, c: E) -> E {
         E::Add(b(a), b(c))
     }
